@@ -69,8 +69,24 @@ def random_history(tid, seed, nvars, steps, max_held=8, profile='core'):
             u, v = pick_ref(tr, rng), pick_ref(tr, rng)
             tr.apply(op, u, v)
             recent.append(('apply', (op, u, v)))
-        elif c < 0.48:
+        elif c < 0.47:
             tr.apply(rng.choice(UN_OPS), pick_ref(tr, rng))
+        elif c < 0.48 and not dynp:
+            # copy.copy(manager): the copy works on its own for a while
+            import copy as _copy_mod
+
+            def fork():
+                c2 = _copy_mod.copy(b)
+                hs = [h for h in held if abs(h) in c2._succ]
+                for _ in range(6):
+                    if len(hs) >= 2:
+                        x = c2.apply(rng.choice(BIN_OPS), rng.choice(hs), -rng.choice(hs))
+                        hs.append(x)
+                for u in list(c2._ref):
+                    c2._ref[u] = 0         # the copy is discarded; silence its shutdown check
+                c2._ref[1] = 1
+                return 0
+            tr.call('other', dict(what='fork_manager_copy'), fork)
         elif c < 0.52:
             op = rng.choice(QUANT_OPS)
             qs = rng.sample(names, rng.randint(1, min(2, nvars)))
@@ -355,6 +371,11 @@ def decl_history(tid, seed, steps):
                 tr.undeclare(*sub, expect_ok=False)   # a used variable: refused
             else:
                 tr.undeclare('zz_unknown', expect_ok=False)
+            # public-API witness of the unique table after a removal: every
+            # stored triple must come back as its own node
+            for n in rng.sample(sorted(x for x in b._succ if x != 1), min(3, len(b._succ) - 1)):
+                lvl, lo, hi = b._succ[n]
+                tr.find_or_add(lvl, lo, hi, hold=False)
     return tr
 
 
